@@ -43,3 +43,23 @@ From Resolvo Require Import Cdcl.AnalyzeRunProofs.
 
 Theorem C14_analysis_keeps_earlier_solution : forall btl start, (start <= target_level btl start)%N.
 Proof. exact target_level_ge_start. Qed.
+
+(* ---- nothing decided before a soft requirement is tried is ever taken back,
+   whatever the reason for an undo (conflict analysis, restart of run_sat after
+   new clauses, rejection of the requirement): the verified log checker soft_keep
+   runs on every log with soft requirements; split an accepted log at any soft
+   requirement and the trail at that moment is, entry for entry, the oldest part
+   of the final trail (Cdcl/SoftKeep.v).  F14 and F17 broke exactly this. ---- *)
+From Resolvo Require Import Cdcl.SoftKeep.
+
+Theorem C14_soft_keeps_earlier_decisions : forall evs1 evs2,
+  soft_keep (evs1 ++ LSoft :: evs2) = true ->
+  let before := trail_after evs1 [] in
+  let final := trail_after (evs1 ++ LSoft :: evs2) [] in
+  (length before <= length final)%nat /\ oldest (length before) final = before.
+Proof. exact soft_keeps_earlier_decisions. Qed.
+
+Theorem C14_soft_keeps_assignments : forall evs1 evs2 e,
+  soft_keep (evs1 ++ LSoft :: evs2) = true ->
+  In e (trail_after evs1 []) -> In e (trail_after (evs1 ++ LSoft :: evs2) []).
+Proof. exact soft_keeps_assignments. Qed.
